@@ -177,6 +177,52 @@ def multi_base_matrix():
                            "masks": list(range(1 << len(cids))), "target_kind": kind, "matrix": [kind, is_async, b1, b2, child]}
 
 
+def gap_matrix():
+    """Enumerated: an ancestor provides the member {with, without} a precondition, 1..2 intermediate classes do not
+    define it, the last class {overrides, overrides with an own precondition, inherits}; x member kind x sync/async; a
+    postcondition at both ends. (Adding a precondition below an unconstrained ancestor must be rejected across the gap.)"""
+    from vf.progmodel import gen as G
+
+    kinds = [("method", False), ("method", True), ("static", False), ("class", False), ("getter", False),
+             ("setter", False), ("deleter", False)]
+    for kind, is_async in kinds:
+        for anc in ("pre", "nopre"):
+            for gap in (1, 2):
+                for child in ("override", "override+pre", "inherit"):
+                    ids = G.Ids()
+                    name = "p" if kind in ("getter", "setter", "deleter") else "m"
+
+                    def members(mode):
+                        if mode == "absent":
+                            return []
+                        params, defaults = G.params_of(kind)
+                        decos = [{"t": "ensure", "cid": ids.cid(), "args": [], "lam": False, "err": {"form": "default"}}]
+                        if mode == "pre":
+                            decos.append({"t": "require", "cid": ids.cid(), "args": [], "lam": False, "err": {"form": "default"}})
+                        f = {"name": name, "kind": kind, "async": is_async, "params": params, "defaults": defaults,
+                             "decos": decos, "body": {"ret": "obj"}}
+                        if kind in ("setter", "deleter"):
+                            return [{"name": name, "kind": "getter", "async": False, "params": [], "defaults": {}, "decos": [],
+                                     "body": {"ret": "obj"}}, f]
+                        return [f]
+
+                    classes = [{"name": "K0", "bases": [], "root": "DBC", "shape": "plain", "invs": [], "members": members(anc)}]
+                    for g in range(gap):
+                        classes.append({"name": "K%d" % (g + 1), "bases": [g], "root": "DBC", "shape": "plain", "invs": [],
+                                        "members": []})
+                    classes.append({"name": "K%d" % (gap + 1), "bases": [gap], "root": "DBC", "shape": "plain", "invs": [],
+                                    "members": members({"override": "nopre", "override+pre": "pre", "inherit": "absent"}[child])})
+                    prog = {"funcs": [], "classes": classes}
+                    ops = []
+                    for ci in range(len(classes)):
+                        ops.append({"op": "new", "cls": ci, "k": ci, "args": {}})
+                        args = {"value": "a:v"} if kind == "setter" else ({} if kind in ("getter", "deleter") else {"x": "a:x"})
+                        ops.append(G.op_for_member(kind, ci, name, args))
+                    cids = D.all_cids(prog)
+                    yield {"program": prog, "ops": ops, "codes": {c: ("T", "F") for c in cids},
+                           "masks": list(range(1 << len(cids))), "target_kind": kind, "matrix": ["gap", kind, is_async, anc, gap, child]}
+
+
 def nontrivial(case, truth, res, mask, n):
     cl = case["program"].get("classes", [])
     falsy = n - bin(mask).count("1")
@@ -207,6 +253,9 @@ def run(ctx, tier, seed, shard, nshards):
         for case in multi_base_matrix():
             D.run_one(ctx, case, judge, exclude=exclude, nontrivial=nontrivial)
         ctx.count("multi_base_matrix_cells", 7 * 27)
+        for case in gap_matrix():
+            D.run_one(ctx, case, judge, exclude=exclude, nontrivial=nontrivial)
+        ctx.count("gap_matrix_cells", 7 * 12)
 
 
 def structural(ctx):
